@@ -1,6 +1,6 @@
 (* The full dump of a boot information (domain `mbi`): every typed getter and
    every accessor of every tag kind, iterators run to exhaustion. *)
-Require Import Bytes Outcome Render Layout Common TagType Mbi MbiTags Strings MbiAccess RunCommon RunMbi.
+Require Import Bytes Outcome Render Layout Common TagType Mbi MbiTags Strings MbiAccess Debug RunCommon RunMbi.
 From Coq Require Import String.
 Open Scope string_scope.
 Open Scope N_scope.
@@ -144,6 +144,8 @@ Definition lines_kind (p : profile) (k : kind) (m : mem) (t : tref) : list strin
   | KLoadBaseAddr => [line "load_base_addr" (fields k m t ["load_base_addr"])]
   end.
 
+Definition sDbg (r : res unit) : string := sRes (fun _ => "") r.
+
 Definition getter_name (k : kind) : string :=
   match k with
   | KEnd => "end" | KCmdline => "command_line" | KBootLoaderName => "boot_loader_name" | KModule => "module"
@@ -158,20 +160,25 @@ Definition getter_kinds : list kind :=
   [KApm; KBasicMeminfo; KBootLoaderName; KBootdev; KCmdline; KEfiBs; KEfi32Ih; KEfi64Ih; KEfiMmap; KEfi32; KEfi64;
    KElfSections; KFramebuffer; KLoadBaseAddr; KMmap; KNetwork; KAcpiV1; KAcpiV2; KSmbios; KVbe].
 
+Definition line_dbg (p : profile) (k : kind) (m : mem) (t : tref) : string :=
+  line "debug" (getter_name k ++ " " ++ sDbg (dbg_kind p k m t)).
+Definition lines_some (p : profile) (k : kind) (m : mem) (t : tref) : list string :=
+  (line "get" (getter_name k ++ " some " ++ sTref k t) :: lines_kind p k m t ++ [line_dbg p k m t])%list.
+
 Definition lines_get (p : profile) (k : kind) (m : mem) (r : dref) : list string :=
   let nm := getter_name k in
   match k with
   | KFramebuffer =>
       match framebuffer_tag p m r with
       | Val None => [line "get" (nm ++ " none")]
-      | Val (Some (Val t)) => line "get" (nm ++ " some " ++ sTref k t) :: lines_kind p k m t
+      | Val (Some (Val t)) => lines_some p k m t
       | Val (Some x) => [line "get" (nm ++ " some " ++ sRes (fun _ => "") x)]
       | x => [line "get" (nm ++ " " ++ sRes (fun _ => "") x)]
       end
   | _ =>
       match (match k with KEfiMmap => efi_memory_map_tag p m r | _ => get_tag p k m r end) with
       | Val None => [line "get" (nm ++ " none")]
-      | Val (Some t) => line "get" (nm ++ " some " ++ sTref k t) :: lines_kind p k m t
+      | Val (Some t) => lines_some p k m t
       | x => [line "get" (nm ++ " " ++ sRes (fun _ => "") x)]
       end
   end.
@@ -180,11 +187,16 @@ Definition lines_modules_full (p : profile) (m : mem) (r : dref) : list string :
   let '(items, e) := modules_run (iter_fuel (tags_len r)) p m (tags_b r) (tags_len r) 0 in
   (flat_map (fun t => line "module" (sTref KModule t) :: lines_kind p KModule m t) items ++ [line "modules" (sEnd e)])%list.
 
+Definition lines_tail (p : profile) (m : mem) (r : dref) : list string :=
+  [ line "get" ("elf_sections_deprecated " ++ sRes (sOpt (fun it : elf_iter => "rem=" ++ sN (el_rem it))) (elf_sections_deprecated p m r));
+    line "debug" ("boot " ++ (if vbe_undefined p m r then "UB-SKIPPED" else sDbg (dbg_boot p m r))) ].
+
 (* mbi <bytes>: the full dump *)
 Definition run_mbi (p : profile) (bs : list byte) : list string :=
   let m := {| m_base := 0; m_bytes := bs |} in
   let '(l, lines) := run_mbi_core p m in
   match l with
-  | Val r => (lines ++ lines_walk p m r ++ lines_modules_full p m r ++ flat_map (fun k => lines_get p k m r) getter_kinds)%list
+  | Val r => (lines ++ lines_walk p m r ++ lines_modules_full p m r ++ flat_map (fun k => lines_get p k m r) getter_kinds
+              ++ lines_tail p m r)%list
   | _ => lines
   end.
